@@ -1,7 +1,9 @@
 package ref
 
 import (
+	"io"
 	"sync"
+	"testing/iotest"
 	"fmt"
 	"sort"
 	"strings"
@@ -198,7 +200,8 @@ func brace(k string) bool { return k == "{" || k == "}" || k == "{{" || k == "}}
 // layout to be scanned as written.
 func NeedsSeparator(a, b Tok) bool {
 	if brace(a.Kind) && brace(b.Kind) {
-		return true
+		// "{" "{" would be read as "{{"; "}" "{" and "{" "}" are two tokens also without a separator
+		return a.Kind[0] == b.Kind[0]
 	}
 	if !(wordLike(a.Kind) && wordLike(b.Kind)) {
 		return false
@@ -787,3 +790,35 @@ func DescribeRules(rules []*Decl) string {
 
 // EvalRHS evaluates a right-hand side in a given environment (bounded to n terminals).
 func EvalRHS(r *RHS, env map[string]Lang, n int, _ []*Decl) Lang { return evalRHS(r, env, n) }
+
+// ---------------------------------------------------------------------------------------------
+// Sources: how a text reaches emerge
+// ---------------------------------------------------------------------------------------------
+
+// Source returns a reader of the text. What a reader hands out per call is up to the reader (io.Reader: fewer bytes than
+// asked for, the last bytes together with io.EOF, one byte at a time), so the way is chosen by a digest of the text:
+// a quarter each of plain, last-data-with-EOF, half reads and one byte per read. The result of processing a text
+// must not depend on it.
+func Source(text string) io.Reader {
+	h := uint32(2166136261)
+	for i := 0; i < len(text); i++ {
+		h = (h ^ uint32(text[i])) * 16777619
+	}
+	return SourceMode(text, int(h>>3)%4)
+}
+
+// SourceMode: 0 plain, 1 the last data arrives together with io.EOF, 2 half of what is asked for, 3 one byte per read.
+func SourceMode(text string, mode int) io.Reader {
+	switch mode {
+	case 1:
+		return iotest.DataErrReader(strings.NewReader(text))
+	case 2:
+		return iotest.HalfReader(strings.NewReader(text))
+	case 3:
+		if len(text) <= 20000 {
+			return iotest.OneByteReader(strings.NewReader(text))
+		}
+		return iotest.HalfReader(strings.NewReader(text))
+	}
+	return strings.NewReader(text)
+}
